@@ -19,7 +19,7 @@ LEAN_MODULES = ['MpycV.Props.C30']
 LEAN_NAMESPACES = ['MpycV.C30']
 REQUIRED_THEOREMS = ['addBits_spec', 'fromBits_bitsOf', 'toBits_spec', 'toBits_fromBits', 'toBits_assert',
                      'find_spec', 'find_empty', 'unitVector_spec', 'unitVector_wrap', 'trailingZeros_spec',
-                     'gcp2_spec']
+                     'gcp2_spec', 'addBits_any_ring', 'addBits_ring_int', 'addBits_doubling_constant', 'addBits_char2_sum_bit']
 RULE = ('add_bits: all pairs of bit vectors of length <= 3 (quick) / 6 (thorough) + random up to 40 bits; '
         'to_bits: secint(16) and secfxp(16,4) values incl. extremes x every l (0..L+f, None, one above); '
         'from_bits: all bit vectors <= 6/8 bits; find: bit vectors <= 4/6 bits x a public/secret/general x e in '
@@ -405,7 +405,46 @@ def _check(ctx, groups):
                               f"expected {exp}", rep)
 
 
+def addbits_fields(ctx):
+    """add_bits on bits of secure FIELD types (theorem addBits_any_ring: the n low bits of the integer sum, in every
+    commutative ring): GF(2^8), GF(2), GF(101), GF(3^2) -- all pairs of bit vectors of length <= 3 (m = 1), a sample with m = 3"""
+    import simnet
+    rng = ctx.subrng('addbits-fields')
+    pairs = [(list(x), list(y)) for n in range(1, 4) for x in itertools.product((0, 1), repeat=n)
+             for y in itertools.product((0, 1), repeat=n)]
+    for (m, t, orders, sel) in ((1, 0, (2 ** 8, 2, 101, 9), pairs), (3, 1, (2 ** 8, 101), rng.sample(pairs, 12))):
+        def prog(mpc, orders=orders, sel=sel):
+            async def go():
+                out = {}
+                for q in orders:
+                    S = mpc.SecFld(q)
+                    res = []
+                    for x, y in sel:
+                        res.append([int(v) for v in await mpc.output(mpc.add_bits([S(b) for b in x], [S(b) for b in y]))])
+                    out[q] = res
+                return out
+            return go()
+        try:
+            res = simnet.SimNet(m, t, seed=rng.randrange(10 ** 6)).run(prog)
+        except Exception as exc:  # noqa: BLE001
+            ctx.violation(f'add_bits over secure field types (m={m}) does not run: {type(exc).__name__}: {str(exc)[:200]}',
+                          {'kind': 'addbits-fields', 'm': m})
+            return
+        for q in orders:
+            for (x, y), got in zip(sel, res[0][q]):
+                n = len(x)
+                v = sum(b << i for i, b in enumerate(x)) + sum(b << i for i, b in enumerate(y))
+                exp = [(v >> i) & 1 for i in range(n)]
+                ctx.case(('addbits-field', q, m, tuple(x), tuple(y)), nontrivial=n >= 2)
+                ctx.count(f'add_bits:field{q}')
+                if got != exp or any(r[q] != res[0][q] for r in res):
+                    ctx.violation(f'add_bits({x}, {y}) over GF({q}) with m={m}: {got}, expected {exp} (bits of the integer sum)',
+                                  {'kind': 'addbits-fields', 'm': m, 'q': q, 'x': x, 'y': y, 'observed': got, 'expected': exp})
+                    return
+
+
 def run(ctx):
+    addbits_fields(ctx)
     cases = gen_cases(ctx)
     c3 = gen_cases_m3(ctx)
     with Pool(2) as top:      # m = 3 sample concurrently with the m = 1 sweep
@@ -446,6 +485,10 @@ def search(ctx):
 
 
 def replay(ctx, data):
+    if data.get('kind') == 'addbits-fields':
+        c2 = common.Ctx('C30', 'quick', 0)
+        addbits_fields(c2)
+        return not c2.violations, (c2.violations[0][0] if c2.violations else 'ok')
     if data.get('kind') != 'case':
         return True, f"nothing to run for replay kind {data.get('kind')!r}"
     case = {k: v for k, v in data.items() if k in ('fn', 'x', 'y', 'a', 'b', 'l', 'n', 'type', 'integral', 'mode',
